@@ -13,7 +13,7 @@
    regenerated universe U is the modelling assumption; it is validated on every run by the pair
    experiment and the global-state diff of harness/c12.py, not proved. *)
 From Coq Require Import String List Bool Permutation.
-From JMCV Require Import Model.Proc Proofs.Proc.
+From JMCV Require Import Model.Proc Proofs.Proc Proofs.ProcExact.
 Import ListNotations.
 
 (* If every field a compiler phase can see has been (re)assigned from the current input before
@@ -35,6 +35,54 @@ Theorem C12_state_independent :
     history_free U steps = true -> output U W steps i g = output U W steps i g'.
 Proof. exact history_free_any_state. Qed.
 Print Assumptions C12_state_independent.
+
+(* ---------------------------------------------------------------- strengthening round 4
+   AMBIENT state.  The working directory, os.environ, sys.path, sys.modules, signal handlers, the locale, the warnings filters and the
+   logging configuration (`OS name` fields) are visible to every phase and assigned by none: they are part of the INPUT as long as every
+   compile leaves them as it found them.  If the step list is history-free starting from the ambient set A, then for every compiler, every
+   initial state and every history ALONG WHICH EVERY COMPILE (successful or failing) PRESERVES THE AMBIENT FIELDS — what the sequence runner
+   observes by snapshotting them before and after every compile — the output is the output in the initial state. *)
+Theorem C12_ambient_preserved :
+  forall (V I O : Type) (U : list field) (W : world V I O) (A : list field) (steps : list step),
+    history_free_from A U steps = true ->
+    forall (h : list (list step * I)) (g0 : G V) (i : I),
+      preserves_along U W A h g0 ->
+      output U W steps i (run_history U W h g0) = output U W steps i g0.
+Proof. exact ambient_sound. Qed.
+Print Assumptions C12_ambient_preserved.
+
+(* the output depends on the process state through the ambient fields only *)
+Theorem C12_ambient_only :
+  forall (V I O : Type) (U : list field) (W : world V I O) (A : list field) (steps : list step) (i : I) (g g' : G V),
+    history_free_from A U steps = true -> (forall f, mem f A = true -> g f = g' f) ->
+    output U W steps i g = output U W steps i g'.
+Proof. exact ambient_any_state. Qed.
+Print Assumptions C12_ambient_only.
+
+(* NO READ OF A STALE VALUE.  For step lists of the shape the source has (assignments from constants / from the input, guards, phases) the
+   decidable predicate says exactly: wherever a phase stands on the entry point's path, every field it can see is ambient or has been
+   assigned earlier IN THE SAME COMPILE.  (The CLI path parses the header before it reads jmc.txt: a header phase that can see a jmc.txt
+   name there reads the name the PREVIOUS compile left.) *)
+Theorem C12_no_stale_read :
+  forall (A U : list field) (steps : list step),
+    simple steps = true ->
+    (history_free_from A U steps = true <->
+     forall pre n rs post, steps = pre ++ Run n rs :: post ->
+       forall f, In f U -> visible rs f = true -> mem f A = true \/ exists s, In (Assign f s) pre).
+Proof. exact history_free_iff_resets_before_reads. Qed.
+Print Assumptions C12_no_stale_read.
+
+(* EXACTNESS.  A step list the predicate rejects (some phase can see a field that this compile has not reset) is not history-free for
+   every compiler: there is a compiler of the modelled class and two process states that agree on the ambient fields and give different
+   outputs.  So the regenerated obligation is not merely sufficient: a stale read IS a leak for some compiler with these step lists. *)
+Theorem C12_stale_read_leaks :
+  forall (U A : list field) (steps : list step),
+    no_assign_when steps = true -> history_free_from A U steps = false ->
+    exists (g g' : G bool),
+      (forall f, mem f A = true -> g f = g' f) /\
+      output U taint_world steps tt g <> output U taint_world steps tt g'.
+Proof. exact stale_read_leaks. Qed.
+Print Assumptions C12_stale_read_leaks.
 
 (* Hash seed.  An emission that walks a set is a fold over some enumeration of it; CPython's choice of
    enumeration depends on the string-hash seed.  The result is the same for all enumerations
@@ -114,3 +162,52 @@ Example C12_two_active_order_matters :
   let stp := fun (s : string) (a : string) => if String.eqb a "score" || String.eqb a "keybind" then a else s in
   emit string string stp ["score"; "keybind"] "" <> emit string string stp ["keybind"; "score"] "".
 Proof. cbn. discriminate. Qed.
+
+(* round 4, class (g): a validity check run while the HEADER is parsed reads the jmc.txt names.  Harmless where jmc.txt is read first
+   (JMCTestPack, PyJMC); on the CLI path the header is parsed before read_cert, so the check sees the names of the previous compile:
+   the predicate is false there, and a concrete compiler (the check raises when PRIVATE starts with an overridden namespace) compiles the
+   project in a fresh process and raises after a compile that left PRIVATE=foo/internal. *)
+Example C12_header_reads_names_refuted :
+  let U := [HF "namespace_overrides"; DF "private_name"] in
+  let clear := [Assign (HF "namespace_overrides") SrcConst] in
+  let cert := [Guard "read_cert"; Assign (DF "private_name") SrcInput] in
+  let hdr := Run "read_header" (RHeaderPlus [DF "private_name"]) in
+  let cli := (clear ++ [hdr] ++ cert ++ [Run "lexer" RAll])%list in
+  let test := (clear ++ cert ++ [hdr] ++ [Run "lexer" RAll])%list in
+  (* input = (does the header say `#override foo`, PRIVATE of jmc.txt); state values are strings *)
+  let W := mkWorld (fun _ => "") (fun _ (i : bool * string) => snd i) (fun _ _ prev => prev) (fun _ _ => true) (fun _ _ => @None string)
+                   (fun n i view => if String.eqb n "read_header"
+                                    then (view, if fst i && String.eqb (nth 1 view "") "foo/internal" then Some "HeaderSyntaxException" else None)
+                                    else (view, Some "compiled")) in
+  let g0 : G string := fun _ => "__private__" in
+  history_free U test = true /\ history_free U cli = false /\
+  first_leak U cli [] = Some ("read_header", [DF "private_name"]) /\
+  output U W cli (true, "foo/internal") g0 = Some "compiled" /\
+  output U W cli (true, "foo/internal") (run_history U W [(cli, (true, "foo/internal"))] g0) = Some "HeaderSyntaxException" /\
+  output U W cli (true, "__private__") (run_history U W [(cli, (false, "foo/internal"))] g0) = Some "HeaderSyntaxException".
+Proof. repeat split. Qed.
+
+(* round 4, class (h): JMC.pythonFile changes into the script's folder and restores the working directory only when the script returns.
+   The step list is history-free from the ambient set, but a failing compile does not PRESERVE the ambient field: the premise of
+   C12_ambient_preserved is false for that history and the next compile (relative target) gives another result. *)
+Example C12_cwd_not_restored_refuted :
+  let U := [OS "cwd"] in
+  let A := [OS "cwd"] in
+  let steps := [Run "lexer" RAll] in
+  (* input = does the script raise; the phase resolves the target against the working directory *)
+  let W := mkWorld (fun _ => "") (fun _ (_ : bool) => "") (fun _ _ prev => prev) (fun _ _ => true) (fun _ _ => @None string)
+                   (fun _ raises view => if String.eqb (hd "" view) "/work"
+                                         then (if raises then (["/work/scripts"], Some "JMCValueError") else (view, Some "compiled"))
+                                         else (view, Some "JMCFileNotFoundError")) in
+  let g0 : G string := fun _ => "/work" in
+  history_free_from A U steps = true /\
+  output U W steps false g0 = Some "compiled" /\
+  preserves_along U W A [(steps, false)] g0 /\
+  output U W steps false (run_history U W [(steps, false)] g0) = Some "compiled" /\
+  ~ preserves_along U W A [(steps, true)] g0 /\
+  output U W steps false (run_history U W [(steps, true)] g0) = Some "JMCFileNotFoundError".
+Proof.
+  repeat split.
+  - intros f Hf. cbn. unfold upd. destruct (field_eqb (OS "cwd") f); reflexivity.
+  - intros [H _]. specialize (H (OS "cwd") eq_refl). discriminate H.
+Qed.
